@@ -22,6 +22,10 @@ def run(c, replay):
     lpruns = C.lp_campaign(c, ctx, r, 12 if c.tier == "quick" else 200, S.mask("ROLLBACK", "SILENT", "CKPT"))
     c.cov.update(C.worker_report(c, lpruns))
     runs = runs + lpruns
+    # two ranks: the history then holds markers of messages sent to another rank, which the coast forward must skip as well
+    progs2, runs2 = C.campaign(c, ctx, r, 4 if c.tier == "quick" else 40, S.mask("ROLLBACK", "SILENT", "CKPT"), c.tier, variants=("pred",), ranks_list=(2,),
+                               only_cfgs=[(2, 3, 200), (2, 6, 300), (1, 4, 200)], use_corpus=False, long_every=0, jobs=3)
+    runs = runs + runs2
     rb = sil = deep = okr = 0
     for run_ in runs:
         res, pr = run_["res"], run_["prog"]
